@@ -1,0 +1,289 @@
+//go:build verif
+
+// Contracts for the plain authorization-model graph (property C17, plus C13/C08), checked by govc.
+// Comments and import anchors only; compiled only with -tags verif.
+package graph
+
+import (
+	openfgav1 "github.com/openfga/api/proto/openfga/v1"
+	"gonum.org/v1/gonum/graph"
+	"gonum.org/v1/gonum/graph/encoding"
+)
+
+var _ *openfgav1.Userset
+var _ encoding.Attribute
+
+// Anchor: contract types are resolved in the scope of the alphabetically last contracts*_verif.go file of the package
+// (contracts_verif.go, which does not import gonum), so gonum's graph.Node needs a package-level name.
+type plainGonumNode = graph.Node
+
+// ---------------------------------------------------------------------------------------------------------------
+// (1) pure accessors and DOT attributes
+
+//@ func (*AuthorizationModelEdge).EdgeType
+//@   props C17 C13
+//@   readonly
+//@   requires n != nil
+//@   ensures exact: result == n.edgeType
+
+//@ func (*AuthorizationModelEdge).TuplesetRelation
+//@   props C17 C13
+//@   readonly
+//@   requires n != nil
+//@   ensures exact: result == n.tuplesetRelation
+
+//@ func (*AuthorizationModelEdge).Attributes
+//@   props C17 C13
+//@   readonly
+//@   requires n != nil
+//@   ensures direct_len:   n.edgeType == DirectEdge ==> len(result) == 1
+//@   ensures direct_attr:  n.edgeType == DirectEdge ==> result[0].Key == "label" && result[0].Value == "direct"
+//@   ensures computed_len: n.edgeType == ComputedEdge ==> len(result) == 1
+//@   ensures computed_attr: n.edgeType == ComputedEdge ==> result[0].Key == "style" && result[0].Value == "dashed"
+//@   ensures ttu_len:      n.edgeType == TTUEdge ==> len(result) == 1
+//@   ensures ttu_attr:     n.edgeType == TTUEdge ==> result[0].Key == "headlabel"
+//@                            && result[0].Value == "(" + ite(n.tuplesetRelation == "", "missing", n.tuplesetRelation) + ")"
+//@   ensures other_empty:  n.edgeType != DirectEdge && n.edgeType != ComputedEdge && n.edgeType != TTUEdge ==> len(result) == 0
+//@   ensures fresh_result: len(result) > 0 ==> fresh(result)
+
+//@ func (*AuthorizationModelNode).Attributes
+//@   props C17 C13
+//@   readonly
+//@   requires n != nil
+//@   ensures one: len(result) == 1
+//@   ensures fresh_result: fresh(result)
+//@   ensures label_attr: result[0].Key == "label" && result[0].Value == n.label
+
+//@ func (*AuthorizationModelNode).Label
+//@   props C17 C13
+//@   readonly
+//@   requires n != nil
+//@   ensures exact: result == n.label
+
+//@ func (*AuthorizationModelNode).NodeType
+//@   props C17 C13
+//@   readonly
+//@   requires n != nil
+//@   ensures exact: result == n.nodeType
+
+//@ func (*AuthorizationModelGraph).GetDrawingDirection
+//@   props C17 C13
+//@   readonly
+//@   requires g != nil
+//@   ensures exact: result == g.drawingDirection
+
+//@ func (*AuthorizationModelGraph).Attributes
+//@   props C17 C13
+//@   readonly
+//@   requires g != nil
+//@   ensures one: len(result) == 1
+//@   ensures fresh_result: fresh(result)
+//@   ensures key: result[0].Key == "rankdir"
+//@   ensures bottom_to_top: g.drawingDirection == DrawingDirectionListObjects ==> result[0].Value == "BT"
+//@   ensures top_to_bottom: g.drawingDirection == DrawingDirectionCheck ==> result[0].Value == "TB"
+
+// typeAndRelationExists: some type definition of the model has the given name and declares the relation.
+//@ spec declaresRel(model *openfgav1.AuthorizationModel, i int, typeName string, relation string) bool =
+//@   model.GetTypeDefinitions()[i].GetType() == typeName && has(model.GetTypeDefinitions()[i].GetRelations(), relation)
+
+//@ func typeAndRelationExists
+//@   props C17 C13
+//@   readonly
+//@   ensures exact: result == (exists i int :: 0 <= i && i < len(model.GetTypeDefinitions()) && declaresRel(model, i, typeName, relation))
+//@   loop 1 invariant none_yet: forall i int :: 0 <= i && i < $i ==> !declaresRel(model, i, typeName, relation)
+//@   cover found: result
+//@   cover not_found: !result
+
+// ---------------------------------------------------------------------------------------------------------------
+// (2) label lookup. g.Node is gonum (unmodelled): only the part before that call is exact.
+
+//@ func (*AuthorizationModelGraph).GetNodeByLabel
+//@   props C17 C13 C08
+//@   requires g != nil
+//@   ensures unknown_label_rejected: !old(has(g.ids, label)) ==> err != nil && result0 == nil
+//@   ensures error_wraps: err != nil ==> wraps(err, ErrQueryingGraph)
+//@   ensures error_no_node: err != nil ==> result0 == nil
+//@   -- dropped: `err == nil ==> result0 != nil` - not provable without gonum (g.Node may return an interface holding a
+//@   -- nil *AuthorizationModelNode, which passes the comma-ok assertion); needs "Node returns what AddNode was given".
+//@   ensures found_only_keys: err == nil ==> old(has(g.ids, label))
+
+// ---------------------------------------------------------------------------------------------------------------
+// (3) cycles. topo.DirectedCyclesIn and (*multi.DirectedGraph).Lines are gonum (unmodelled: result unconstrained, heap
+// havocked), so nothing can be said about *which* lists are examined; what is provable is the bookkeeping of the flags.
+
+// ncEdge(g, l): "some line of g from l[i] to l[j], i < j, is not a computed edge" - what nodeListHasNonComputedEdge
+// computes from gonum's Lines. Uninterpreted: it only names the answer so that GetCycles can be stated relative to it.
+//@ opaque ncEdge(g *AuthorizationModelGraph, l []plainGonumNode) bool
+
+//@ func (*AuthorizationModelGraph).nodeListHasNonComputedEdge
+//@   props C17 C08 C13
+//@   requires g != nil
+//@   requires nodes_non_nil: forall k int :: 0 <= k && k < len(nodeList) ==> nodeList[k] != nil
+//@   -- the two gonum_* clauses need an assumed contract on gonum (Lines is a function of the graph, queries write nothing)
+
+// GetCycles relative to the contract above: a flag is set iff some list returned by topo.DirectedCyclesIn is of the
+// corresponding kind. `nodes` (the result of DirectedCyclesIn) is a local, so the statement lives in the invariants.
+//@ func (*AuthorizationModelGraph).GetCycles
+//@   props C17 C08 C13
+//@   requires g != nil
+//@   loop 1 invariant none_before_first: $i == 0 ==> !hasCyclesAtCompileTime && !hasCyclesAtRuntime
+//@   loop 1 invariant one_flag_per_list: $i > 0 ==> hasCyclesAtCompileTime || hasCyclesAtRuntime
+//@   loop 1 invariant lists_kept: forall k int :: 0 <= k && k < len(nodes) ==> nodes[k] == pre(nodes[k])
+//@   loop 1 invariant compile_time_only_if: hasCyclesAtCompileTime ==> (exists k int :: 0 <= k && k < $i && !ncEdge(g, nodes[k]))
+//@   loop 1 invariant compile_time_if: forall k int :: 0 <= k && k < $i && !ncEdge(g, nodes[k]) ==> hasCyclesAtCompileTime
+//@   loop 1 invariant runtime_only_if: hasCyclesAtRuntime ==> (exists k int :: 0 <= k && k < $i && ncEdge(g, nodes[k]))
+//@   loop 1 invariant runtime_if: forall k int :: 0 <= k && k < $i && ncEdge(g, nodes[k]) ==> hasCyclesAtRuntime
+//@   cover none: !result.hasCyclesAtCompileTime && !result.canHaveCyclesAtRuntime
+//@   cover compile_time: result.hasCyclesAtCompileTime && !result.canHaveCyclesAtRuntime
+//@   cover both: result.hasCyclesAtCompileTime && result.canHaveCyclesAtRuntime
+
+// ---------------------------------------------------------------------------------------------------------------
+// (4) builder: safety with gonum havocked.
+//
+// Structure: the *leaf* functions (getNodeByLabel, getOrAddNode, AddEdge, upsertEdge, hasEdge) call gonum directly;
+// every gonum call havocs the whole heap in the engine. What the callers need from a leaf is stated as an `ensures`
+// labelled gonum_*: these clauses are NOT provable without an assumed contract on gonum (they are the places where the
+// assumption A-GONUM is consumed; see NOTES.md for the exact gonum facts). The callers (parseThis, parseComputed,
+// parseTupleToUserset, checkRewrite, parseModel) are then verified relative to the leaf contracts.
+
+// wfBuilder is what every builder function needs at entry.
+//@ spec wfBuilder(b *AuthorizationModelGraphBuilder) bool = b != nil && b.DirectedMultigraphBuilder != nil && b.ids != nil
+
+// noTypedNil(x): the interface does not hold a nil *AuthorizationModelNode (calling ID() on it dereferences the
+// embedded graph.Node of a nil pointer; the test `x == nil` in upsertEdge/hasEdge/AddEdge does not catch it).
+//@ spec noTypedNil(x plainGonumNode) bool = is(x, *AuthorizationModelNode) ==> x.(*AuthorizationModelNode) != nil
+
+// wrapOK(u): no oneof wrapper of the rewrite is a typed nil pointer (A-PROTO: cannot be produced by unmarshalling;
+// the generated getters panic on it as well). allWrapOK: the same for every rewrite in the heap (children).
+//@ spec wrapOK(u *openfgav1.Userset) bool =
+//@      (is(u.GetUserset(), *openfgav1.Userset_ComputedUserset) ==> u.GetUserset().(*openfgav1.Userset_ComputedUserset) != nil)
+//@   && (is(u.GetUserset(), *openfgav1.Userset_TupleToUserset) ==> u.GetUserset().(*openfgav1.Userset_TupleToUserset) != nil)
+//@   && (is(u.GetUserset(), *openfgav1.Userset_Union) ==> u.GetUserset().(*openfgav1.Userset_Union) != nil)
+//@   && (is(u.GetUserset(), *openfgav1.Userset_Intersection) ==> u.GetUserset().(*openfgav1.Userset_Intersection) != nil)
+//@   && (is(u.GetUserset(), *openfgav1.Userset_Difference) ==> u.GetUserset().(*openfgav1.Userset_Difference) != nil)
+//@ spec allWrapOK() bool = forall u *openfgav1.Userset :: allocated(u) ==> wrapOK(u)
+
+//@ func (*AuthorizationModelGraphBuilder).getNodeByLabel
+//@   props C17 C08 C13
+//@   requires g != nil && g.DirectedMultigraphBuilder != nil
+//@   ensures unknown_label: !old(has(g.ids, uniqueLabel)) ==> result == nil
+
+//@ func (*AuthorizationModelGraphBuilder).getOrAddNode
+//@   props C17 C08 C13
+//@   requires wfBuilder(g)
+//@   ensures non_nil: result != nil
+
+//@ func (*AuthorizationModelGraphBuilder).AddEdge
+//@   props C17 C08 C13
+//@   requires g != nil && g.DirectedMultigraphBuilder != nil
+//@   requires endpoints_not_typed_nil: noTypedNil(from) && noTypedNil(to)
+//@   ensures nil_endpoint: (from == nil || to == nil) ==> result == nil
+//@   ensures new_edge: from != nil && to != nil ==> result != nil && fresh(result)
+
+//@ func (*AuthorizationModelGraphBuilder).upsertEdge
+//@   props C17 C08 C13
+//@   requires g != nil && g.DirectedMultigraphBuilder != nil
+//@   requires from_not_typed_nil: noTypedNil(from)
+//@   requires to_not_typed_nil: noTypedNil(to)
+
+//@ func (*AuthorizationModelGraphBuilder).hasEdge
+//@   props C17 C08 C13
+//@   requires g != nil && g.DirectedMultigraphBuilder != nil
+//@   requires from_not_typed_nil: noTypedNil(from)
+//@   requires to_not_typed_nil: noTypedNil(to)
+
+// ---- callers, verified relative to the leaf contracts
+
+//@ func parseComputed
+//@   props C17 C08 C13
+//@   requires wfBuilder(graphBuilder)
+//@   requires parentNode != nil
+//@   ensures builder_kept: graphBuilder.DirectedMultigraphBuilder == old(graphBuilder.DirectedMultigraphBuilder) && graphBuilder.ids == old(graphBuilder.ids)
+//@   ensures rewrites_kept: old(allWrapOK()) ==> allWrapOK()
+
+//@ func parseThis
+//@   props C17 C08 C13
+//@   requires wfBuilder(graphBuilder)
+//@   requires parentNode != nil && noTypedNil(parentNode)
+//@   ensures builder_kept: graphBuilder.DirectedMultigraphBuilder == old(graphBuilder.DirectedMultigraphBuilder) && graphBuilder.ids == old(graphBuilder.ids)
+//@   ensures rewrites_kept: old(allWrapOK()) ==> allWrapOK()
+//@   loop 1 invariant wf: graphBuilder.DirectedMultigraphBuilder == old(graphBuilder.DirectedMultigraphBuilder) && graphBuilder.ids == old(graphBuilder.ids)
+//@   loop 1 invariant rw: old(allWrapOK()) ==> allWrapOK()
+
+//@ func parseTupleToUserset
+//@   props C17 C08 C13
+//@   requires wfBuilder(graphBuilder)
+//@   requires parentNode != nil && noTypedNil(parentNode)
+//@   ensures builder_kept: graphBuilder.DirectedMultigraphBuilder == old(graphBuilder.DirectedMultigraphBuilder) && graphBuilder.ids == old(graphBuilder.ids)
+//@   ensures rewrites_kept: old(allWrapOK()) ==> allWrapOK()
+//@   loop 1 invariant wf: graphBuilder.DirectedMultigraphBuilder == old(graphBuilder.DirectedMultigraphBuilder) && graphBuilder.ids == old(graphBuilder.ids)
+//@   loop 1 invariant rw: old(allWrapOK()) ==> allWrapOK()
+
+//@ func checkRewrite
+//@   props C17 C08 C13
+//@   requires wfBuilder(graphBuilder)
+//@   requires parentNode != nil
+//@   requires no_typed_nil_wrappers: allWrapOK()
+//@   ensures builder_kept: graphBuilder.DirectedMultigraphBuilder == old(graphBuilder.DirectedMultigraphBuilder) && graphBuilder.ids == old(graphBuilder.ids)
+//@   ensures rewrites_kept: allWrapOK()
+//@   loop 1 invariant wf: graphBuilder.DirectedMultigraphBuilder == old(graphBuilder.DirectedMultigraphBuilder) && graphBuilder.ids == old(graphBuilder.ids)
+//@   loop 1 invariant rw: allWrapOK()
+
+//@ func parseModel
+//@   props C17 C08 C13
+//@   requires no_typed_nil_wrappers: allWrapOK()
+//@   ensures error_wraps: err != nil ==> wraps(err, ErrBuildingGraph) && result0 == nil && result1 == nil
+//@   ensures ids_non_nil: err == nil ==> result1 != nil
+//@   loop 1 invariant wf: wfBuilder(graphBuilder)
+//@   loop 1 invariant rw: allWrapOK()
+//@   loop 1.1 invariant wf: wfBuilder(graphBuilder)
+//@   loop 1.1 invariant rw: allWrapOK()
+//@   loop 1.2 invariant wf: wfBuilder(graphBuilder)
+//@   loop 1.2 invariant rw: allWrapOK()
+
+// Reversed: the loops over gonum iterators are out of reach (every Next/Node/Edge/Line call havocs the heap); what is
+// provable is the part after them, relative to the state the iterators leave behind: direction negated, ids a fresh
+// equal map.
+//@ func (*AuthorizationModelGraph).Reversed
+//@   props C17 C08 C13
+//@   requires g != nil
+//@   ensures error_wraps: err != nil ==> wraps(err, ErrBuildingGraph) && result0 == nil
+//@   ensures fresh_graph: err == nil ==> result0 != nil && fresh(result0)
+//@   ensures flips_direction: err == nil ==> result0.drawingDirection == !g.drawingDirection
+//@   ensures ids_fresh: err == nil ==> result0.ids != nil && fresh(result0.ids) && result0.ids != g.ids
+//@   ensures ids_same_keys: err == nil ==> (forall k string :: has(result0.ids, k) <==> has(g.ids, k))
+//@   ensures ids_same_values: err == nil ==> (forall k string :: has(g.ids, k) ==> result0.ids[k] == g.ids[k])
+//@   -- loops 1, 2, 2.1 havoc the heap; keeping "graphBuilder was allocated by this call" carries the allocation
+//@   -- counter across them (the engine otherwise forgets that it only grows), which loop 3 needs for fresh(copyIDs)
+//@   loop 1 invariant alloc: fresh(graphBuilder) && allocated(graphBuilder)
+//@   loop 2 invariant alloc: fresh(graphBuilder) && allocated(graphBuilder)
+//@   loop 2.1 invariant alloc: fresh(graphBuilder) && allocated(graphBuilder)
+//@   loop 3 invariant fresh_copy: fresh(copyIDs)
+//@   loop 3 invariant visited_are_keys: forall k string :: $visited[k] ==> has(g.ids, k)
+//@   loop 3 invariant non_nil_copy: copyIDs != nil
+//@   loop 3 invariant distinct_copy: copyIDs != g.ids
+//@   loop 3 invariant forall k string :: has(copyIDs, k) <==> $visited[k]
+//@   loop 3 invariant forall k string :: $visited[k] ==> copyIDs[k] == g.ids[k]
+
+// ---------------------------------------------------------------------------------------------------------------
+// entry points on top of the above (cheap, relative to the same contracts)
+
+//@ func NewAuthorizationModelGraph
+//@   props C17 C08 C13
+//@   requires no_typed_nil_wrappers: allWrapOK()
+//@   ensures error_wraps: err != nil ==> wraps(err, ErrBuildingGraph) && result0 == nil
+//@   ensures fresh_graph: err == nil ==> result0 != nil && fresh(result0)
+//@   ensures drawn_from_users: err == nil ==> result0.drawingDirection == DrawingDirectionListObjects
+//@   ensures ids_non_nil: err == nil ==> result0.ids != nil
+
+//@ func (*AuthorizationModelGraph).PathExists
+//@   props C17 C08 C13
+//@   requires g != nil
+//@   ensures unknown_from_rejected: !old(has(g.ids, fromLabel)) ==> err != nil && !result0
+//@   ensures error_wraps: err != nil ==> wraps(err, ErrQueryingGraph) && !result0
+
+//@ func (*AuthorizationModelGraph).DOTAttributers
+//@   props C17 C13
+//@   readonly
+//@   ensures graph_attrs_only: result0 != nil && is(result0, *AuthorizationModelGraph) && result0.(*AuthorizationModelGraph) == g
+//@   ensures no_node_edge_defaults: result1 == nil && result2 == nil
